@@ -24,7 +24,7 @@ func hx(b []byte) string { return hex.EncodeToString(b) }
 // vSynthStore builds the serialized store a node would hold after receiving
 // the first k secrets of producer p, without performing k insertions: bucket
 // b holds the most recently inserted index with exactly b trailing zeros.
-func vSynthStore(p *RevocationProducer, k uint64) []byte {
+func vSynthStore(p *RevocationProducer, k uint64) ([]byte, error) {
 	var buf bytes.Buffer
 	type be struct {
 		idx  uint64
@@ -48,7 +48,7 @@ func vSynthStore(p *RevocationProducer, k uint64) []byte {
 		}
 		h, err := p.AtIndex(uint64(startIndex) - cand)
 		if err != nil {
-			panic(err)
+			return nil, err
 		}
 		bks = append(bks, be{idx: cand, hash: *h})
 		n = b + 1
@@ -63,7 +63,7 @@ func vSynthStore(p *RevocationProducer, k uint64) []byte {
 	var ib [8]byte
 	binary.BigEndian.PutUint64(ib[:], uint64(startIndex)-k)
 	buf.Write(ib[:])
-	return buf.Bytes()
+	return buf.Bytes(), nil
 }
 
 func TestVerifShachain(t *testing.T) {
@@ -80,129 +80,204 @@ func TestVerifShachain(t *testing.T) {
 		prod := NewRevocationProducer(root)
 		store := NewRevocationStore()
 		kind := "seq"
-
-		// Starting position: usually 0; sometimes a structured far
-		// position reached through the codec (bit patterns 2^j, 2^j±1,
-		// long runs of ones, random 47-bit values).
+		aborted := ""
 		var k uint64
-		switch r.intn(6) {
-		case 0:
-			kind = "far"
-			j := uint(r.intn(47))
-			switch r.intn(4) {
+	caseBody:
+		for once := true; once; once = false {
+
+			// Starting position: usually 0; sometimes a structured far
+			// position reached through the codec (bit patterns 2^j, 2^j±1,
+			// long runs of ones, random 47-bit values).
+			switch r.intn(6) {
 			case 0:
-				k = uint64(1) << j
-			case 1:
-				k = (uint64(1) << j) + 1
-			case 2:
-				k = (uint64(1) << j) - 1
-			default:
-				k = r.u64() & ((1 << 47) - 1)
-			}
-			if k == 0 {
-				k = 1
-			}
-			enc := vSynthStore(prod, k)
-			s2, err := NewRevocationStoreFromBytes(bytes.NewReader(enc))
-			ops = append(ops, vOp{"load", hx(enc), err == nil})
-			if err != nil {
-				t.Fatalf("load: %v", err)
-			}
-			store = s2
-		}
-
-		nadd := 1 + r.intn(40)
-		if r.intn(8) == 0 {
-			nadd = 64 + r.intn(200)
-		}
-		var last []byte
-		// 60% of the cases are clean runs; the others make 1-3 corruption
-		// attempts at seeded positions (Cedar's lesson: do not let the
-		// error path dominate).
-		corruptAt := map[int]bool{}
-		if r.intn(10) < 4 {
-			for c := 1 + r.intn(3); c > 0; c-- {
-				corruptAt[r.intn(nadd)] = true
-			}
-		}
-		poisoned := 0
-		for a := 0; a < nadd && poisoned < 6; a++ {
-			if poisoned > 0 {
-				poisoned++
-			}
-			h, err := prod.AtIndex(k)
-			if err != nil {
-				t.Fatalf("producer: %v", err)
-			}
-			// The producer derivation costs ~47 hashes in the model; tie
-			// it on a sample of the positions only.
-			if a < 2 || r.intn(16) == 0 {
-				ops = append(ops, vOp{"prod", hx(root[:]), k, hx(h[:])})
-			}
-
-			// Occasionally offer a wrong secret first.
-			if corruptAt[a] {
-				var bad chainhash.Hash
+				kind = "far"
+				j := uint(r.intn(47))
 				switch r.intn(4) {
 				case 0:
-					copy(bad[:], r.bytes(32))
+					k = uint64(1) << j
 				case 1:
-					bad = *h
-					bit := r.intn(256)
-					bad[bit/8] ^= 1 << (bit % 8)
+					k = (uint64(1) << j) + 1
 				case 2:
-					if last != nil {
-						copy(bad[:], last)
-					} else {
-						copy(bad[:], r.bytes(32))
-					}
+					k = (uint64(1) << j) - 1
 				default:
-					o, _ := prod.AtIndex(k + 1 + uint64(r.intn(3)))
-					bad = *o
+					k = r.u64() & ((1 << 47) - 1)
 				}
-				kind = "corrupt"
-				err := store.AddNextEntry(&bad)
-				ops = append(ops, vOp{"add", hx(bad[:]), err == nil})
-				if err == nil {
-					// The store accepted it (no lower bucket to
-					// check against); the chain is now poisoned —
-					// keep going, the model must track it too.
-					k++
-					last = bad[:]
-					poisoned = 1
-					continue
+				if k == 0 {
+					k = 1
 				}
-			}
-			err = store.AddNextEntry(h)
-			ops = append(ops, vOp{"add", hx(h[:]), err == nil})
-			if err == nil {
-				k++
-				last = h[:]
-			}
-
-			if r.intn(10) == 0 {
-				var b bytes.Buffer
-				if err := store.Encode(&b); err != nil {
-					t.Fatalf("encode: %v", err)
-				}
-				s2, err := NewRevocationStoreFromBytes(bytes.NewReader(b.Bytes()))
+				enc, err := vSynthStore(prod, k)
 				if err != nil {
-					t.Fatalf("decode: %v", err)
+					ops = append(ops, vOp{"prod", hx(root[:]), k, nil})
+					aborted = "producer"
+					k = 0
+					break caseBody
+				}
+				s2, err := NewRevocationStoreFromBytes(bytes.NewReader(enc))
+				ops = append(ops, vOp{"load", hx(enc), err == nil})
+				if err != nil {
+					aborted = "load"
+					k = 0
+					break caseBody
 				}
 				store = s2
-				ops = append(ops, vOp{"encdec", hx(b.Bytes())})
 			}
-			if r.intn(3) == 0 {
-				v := uint64(0)
+
+			nadd := 1 + r.intn(40)
+			if r.intn(8) == 0 {
+				nadd = 64 + r.intn(200)
+			}
+			var last []byte
+			// 60% of the cases are clean runs; the others make 1-3 corruption
+			// attempts at seeded positions (Cedar's lesson: do not let the
+			// error path dominate).
+			corruptAt := map[int]bool{}
+			if r.intn(10) < 4 {
+				for c := 1 + r.intn(3); c > 0; c-- {
+					corruptAt[r.intn(nadd)] = true
+				}
+			}
+			poisoned := 0
+			for a := 0; a < nadd && poisoned < 6; a++ {
+				if poisoned > 0 {
+					poisoned++
+				}
+				h, err := prod.AtIndex(k)
+				if err != nil {
+					ops = append(ops, vOp{"prod", hx(root[:]), k, nil})
+					aborted = "producer"
+					break caseBody
+				}
+				// The producer derivation costs ~47 hashes in the model; tie
+				// it on a sample of the positions only.
+				if a < 2 || r.intn(16) == 0 {
+					ops = append(ops, vOp{"prod", hx(root[:]), k, hx(h[:])})
+				}
+
+				// Occasionally offer a wrong secret first.
+				if corruptAt[a] {
+					var bad chainhash.Hash
+					switch r.intn(4) {
+					case 0:
+						copy(bad[:], r.bytes(32))
+					case 1:
+						bad = *h
+						bit := r.intn(256)
+						bad[bit/8] ^= 1 << (bit % 8)
+					case 2:
+						if last != nil {
+							copy(bad[:], last)
+						} else {
+							copy(bad[:], r.bytes(32))
+						}
+					default:
+						o, _ := prod.AtIndex(k + 1 + uint64(r.intn(3)))
+						bad = *o
+					}
+					kind = "corrupt"
+					err := store.AddNextEntry(&bad)
+					ops = append(ops, vOp{"add", hx(bad[:]), err == nil})
+					if err == nil {
+						// The store accepted it (no lower bucket to
+						// check against); the chain is now poisoned —
+						// keep going, the model must track it too.
+						k++
+						last = bad[:]
+						poisoned = 1
+						continue
+					}
+				}
+				err = store.AddNextEntry(h)
+				ops = append(ops, vOp{"add", hx(h[:]), err == nil})
+				if err == nil {
+					k++
+					last = h[:]
+				}
+
+				if r.intn(10) == 0 {
+					var b bytes.Buffer
+					if err := store.Encode(&b); err != nil {
+						t.Fatalf("encode: %v", err)
+					}
+					s2, err := NewRevocationStoreFromBytes(bytes.NewReader(b.Bytes()))
+					if err != nil {
+						ops = append(ops, vOp{"load", hx(b.Bytes()), false})
+						aborted = "decode"
+						break caseBody
+					}
+					store = s2
+					ops = append(ops, vOp{"encdec", hx(b.Bytes())})
+				}
+				if r.intn(3) == 0 {
+					v := uint64(0)
+					switch r.intn(4) {
+					case 0:
+						v = k - 1
+					case 1:
+						v = k + uint64(r.intn(3))
+					default:
+						if k > 0 {
+							v = r.u64() % k
+						}
+					}
+					res, err := store.LookUp(v)
+					if err != nil {
+						ops = append(ops, vOp{"lookup", v, nil})
+					} else {
+						ops = append(ops, vOp{"lookup", v, hx(res[:])})
+					}
+				}
+			}
+			// Boundary lookups: power-of-two neighbours of k (bucket hand-over
+			// points) and indices at / beyond the 48-bit index space, where
+			// newIndex wraps on uint64.
+			if r.intn(2) == 0 {
+				var vs []uint64
+				for j := uint(0); j < 48; j++ {
+					p := uint64(1) << j
+					if p <= k && r.intn(6) == 0 {
+						vs = append(vs, k-p)
+						if p > 1 {
+							vs = append(vs, k-p+1)
+						}
+						if k > p {
+							vs = append(vs, k-p-1)
+						}
+					}
+				}
 				switch r.intn(4) {
 				case 0:
-					v = k - 1
+					vs = append(vs, uint64(startIndex)-1, uint64(startIndex),
+						uint64(startIndex)+1)
 				case 1:
-					v = k + uint64(r.intn(3))
-				default:
-					if k > 0 {
-						v = r.u64() % k
+					vs = append(vs, 1<<63, ^uint64(0), uint64(startIndex)+1+k)
+				}
+				for _, v := range vs {
+					res, err := store.LookUp(v)
+					if err != nil {
+						ops = append(ops, vOp{"lookup", v, nil})
+					} else {
+						ops = append(ops, vOp{"lookup", v, hx(res[:])})
 					}
+				}
+				if r.intn(8) == 0 {
+					pv := []uint64{uint64(startIndex), uint64(startIndex) + 1,
+						^uint64(0)}[r.intn(3)]
+					ph, err := prod.AtIndex(pv)
+					if err != nil {
+						ops = append(ops, vOp{"prod", hx(root[:]), pv, nil})
+					} else {
+						ops = append(ops, vOp{"prod", hx(root[:]), pv, hx(ph[:])})
+					}
+				}
+			}
+			// Final sweep of lookups over recent indices.
+			for j := 0; j < 8; j++ {
+				var v uint64
+				if k > 0 {
+					v = r.u64() % k
+				}
+				if j < 3 && k > uint64(j) {
+					v = k - 1 - uint64(j)
 				}
 				res, err := store.LookUp(v)
 				if err != nil {
@@ -212,22 +287,6 @@ func TestVerifShachain(t *testing.T) {
 				}
 			}
 		}
-		// Final sweep of lookups over recent indices.
-		for j := 0; j < 8; j++ {
-			var v uint64
-			if k > 0 {
-				v = r.u64() % k
-			}
-			if j < 3 && k > uint64(j) {
-				v = k - 1 - uint64(j)
-			}
-			res, err := store.LookUp(v)
-			if err != nil {
-				ops = append(ops, vOp{"lookup", v, nil})
-			} else {
-				ops = append(ops, vOp{"lookup", v, hx(res[:])})
-			}
-		}
 		// One SHA-256 sample to tie the model's hash to crypto/sha256.
 		m := r.bytes(r.intn(130))
 		d := sha256.Sum256(m)
@@ -235,7 +294,98 @@ func TestVerifShachain(t *testing.T) {
 
 		out.emit(map[string]any{
 			"case": ci, "kind": kind, "k": k, "nbuckets": store.lenBuckets,
-			"ops": ops,
+			"ops": ops, "aborted": aborted,
+		})
+	}
+
+	if vTier() == "thorough" {
+		vExhaustive(t, out, master)
+	}
+}
+
+// vExhaustive: for a few roots, insert the first N producer secrets one by
+// one and after EVERY insert compare the lookup of EVERY v < k with the
+// producer (implementation-side check, all k < N).  The trace handed to the
+// model contains all inserts, complete lookup sweeps at the power-of-two
+// neighbourhoods and a reload through the codec.
+func vExhaustive(t *testing.T, out *vWriter, master *vrng) {
+	n := uint64(vEnvInt("VERIF_EXH_N", 1024))
+	nroots := int(vEnvInt("VERIF_EXH_ROOTS", 3))
+	for ri := 0; ri < nroots; ri++ {
+		r := master.fork(uint64(1000000 + ri))
+		var root chainhash.Hash
+		copy(root[:], r.bytes(32))
+		prod := NewRevocationProducer(root)
+		store := NewRevocationStore()
+		secrets := make([]chainhash.Hash, 0, n)
+		var ops []vOp
+		var bad [][]uint64
+		checked := uint64(0)
+		maxb := uint8(0)
+		for k := uint64(0); k < n; k++ {
+			h, err := prod.AtIndex(k)
+			if err != nil {
+				ops = append(ops, vOp{"prod", hx(root[:]), k, nil})
+				bad = append(bad, []uint64{k, k})
+				break
+			}
+			secrets = append(secrets, *h)
+			err = store.AddNextEntry(h)
+			ops = append(ops, vOp{"add", hx(h[:]), err == nil})
+			if err != nil {
+				bad = append(bad, []uint64{k, k})
+				break
+			}
+			if store.lenBuckets > maxb {
+				maxb = store.lenBuckets
+			}
+			kk := k + 1
+			sweep := kk <= 9 || (kk+1)&kk == 0 || kk&(kk-1) == 0 ||
+				(kk-1)&(kk-2) == 0
+			if kk == n/2+3 {
+				var b bytes.Buffer
+				if err := store.Encode(&b); err != nil {
+					t.Fatalf("encode: %v", err)
+				}
+				s2, err := NewRevocationStoreFromBytes(bytes.NewReader(b.Bytes()))
+				if err != nil {
+					ops = append(ops, vOp{"load", hx(b.Bytes()), false})
+					bad = append(bad, []uint64{kk, kk})
+					break
+				}
+				store = s2
+				ops = append(ops, vOp{"encdec", hx(b.Bytes())})
+			}
+			for v := uint64(0); v < kk; v++ {
+				res, err := store.LookUp(v)
+				checked++
+				if err != nil || *res != secrets[v] {
+					if len(bad) < 5 {
+						bad = append(bad, []uint64{kk, v})
+					}
+				}
+				if sweep {
+					if err != nil {
+						ops = append(ops, vOp{"lookup", v, nil})
+					} else {
+						ops = append(ops, vOp{"lookup", v, hx(res[:])})
+					}
+				}
+			}
+			// the next index must not be answered yet
+			if res, err := store.LookUp(kk); err == nil {
+				bad = append(bad, []uint64{kk, kk})
+				ops = append(ops, vOp{"lookup", kk, hx(res[:])})
+			}
+		}
+		if uint64(len(secrets)) == n {
+			ops = append(ops, vOp{"prod", hx(root[:]), uint64(0), hx(secrets[0][:])})
+			ops = append(ops, vOp{"prod", hx(root[:]), n - 1, hx(secrets[n-1][:])})
+		}
+		out.emit(map[string]any{
+			"case": 1000000 + ri, "kind": "exh", "k": uint64(len(secrets)),
+			"nbuckets": maxb, "ops": ops, "exh_checked": checked,
+			"exh_bad": bad,
 		})
 	}
 }
